@@ -6,7 +6,7 @@ import gens_slow
 from props.common import TRUSTED_BASE, ASSUMPTIONS
 
 ID = "C01"
-LEAN_MODULES = ["LexVerif.Props.C01", "LexVerif.Props.C01Slow", "LexVerif.Props.C01SlowMain", "LexVerif.Props.RoundNE", "LexVerif.Props.TablesParse", "LexVerif.Props.Literals.ParseFloatParse", "LexVerif.Props.Literals.ParseFloatNumber", "LexVerif.Props.Literals.ParseFloatLemire", "LexVerif.Props.Literals.ParseFloatBellerophon", "LexVerif.Props.Literals.ParseFloatSlow", "LexVerif.Props.Literals.ParseFloatBigint", "LexVerif.Props.Literals.ParseFloatShared", "LexVerif.Props.Literals.ParseFloatFloat", "LexVerif.Props.Literals.ParseFloatMask", "LexVerif.Props.Literals.ParseFloatLimits", "LexVerif.Props.Literals.ParseIntegerAlgorithm", "LexVerif.Props.Literals.UtilDigit", "LexVerif.Props.Literals.UtilStep", "LexVerif.Props.LiteralsModel", "LexVerif.Props.C01Main", "LexVerif.Props.C01SlowDomain", "LexVerif.Props.C01Number", "LexVerif.Props.C01Trunc", "LexVerif.Props.C01Compact", "LexVerif.Props.C01Final"]
+LEAN_MODULES = ["LexVerif.Props.Literals.ParseFloatLibm", "LexVerif.Props.Literals.ParseFloatFpu", "LexVerif.Props.C01", "LexVerif.Props.C01Slow", "LexVerif.Props.C01SlowMain", "LexVerif.Props.RoundNE", "LexVerif.Props.TablesParse", "LexVerif.Props.Literals.ParseFloatParse", "LexVerif.Props.Literals.ParseFloatNumber", "LexVerif.Props.Literals.ParseFloatLemire", "LexVerif.Props.Literals.ParseFloatBellerophon", "LexVerif.Props.Literals.ParseFloatSlow", "LexVerif.Props.Literals.ParseFloatBigint", "LexVerif.Props.Literals.ParseFloatShared", "LexVerif.Props.Literals.ParseFloatFloat", "LexVerif.Props.Literals.ParseFloatMask", "LexVerif.Props.Literals.ParseFloatLimits", "LexVerif.Props.Literals.ParseIntegerAlgorithm", "LexVerif.Props.Literals.UtilDigit", "LexVerif.Props.Literals.UtilStep", "LexVerif.Props.LiteralsModel", "LexVerif.Props.C01Main", "LexVerif.Props.C01SlowDomain", "LexVerif.Props.C01Number", "LexVerif.Props.C01Trunc", "LexVerif.Props.C01Compact", "LexVerif.Props.C01Final"]
 GEN = ["parse_tables", "literals"]
 TRUSTED = TRUSTED_BASE + [
     "Eisel-Lemire (Model/Lemire.lean, tied to the code by the cf/lm component streams) is PROVED in full on its model: lemire_sound_proved (Props/C01.lean) - for every i64 exponent and u64 mantissa compute_float never panics, a valid answer is roundNE(w*10^q) (exact rows 0..27; truncated rows 28..308 and -342..-28 by stability of the upper product bits, normal and subnormal results; rows -27..-1 rounded up: no borrow by divisibility, round-to-even test exact incl. a kernel-evaluated per-row check), and an invalid-marked answer brackets the value as negative_digit_comp needs (lemire_fallback_brackets, lemire_estimate_facts); the many_digits wrapper for every exponent (lemire_wrapper_all). Bellerophon (compact builds) is proved sound on its model (bellerophon_sound). The big-integer slow path is modelled and proved on an explicit domain (Props/C01Slow.lean); Props/C01Final.lean composes them: for every decimal input of every build no hypothesis is left (C01_decimal_full_proved; NumberExact, SlowDomain for Eisel-Lemire and for Bellerophon, truncation_invariant are proved)",
